@@ -63,7 +63,7 @@ from math import ceil
 
 from solvor.types import ProgressCallback, Result, Status
 from solvor.utils.helpers import report_progress
-from solvor.utils.pricing import knapsack_pricing, simplex_phase
+from solvor.utils.pricing import drive_out_artificials, knapsack_pricing, simplex_phase
 from solvor.utils.validate import check_non_negative, check_positive, check_sequence_lengths
 
 __all__ = ["solve_cg"]
@@ -282,6 +282,8 @@ def _solve_master_lp(
 
     if tab[-1][-1] < -eps:
         return [0.0] * n, [0.0] * m, float("inf")
+
+    drive_out_artificials(tab, basis, n + m, n_rows, eps)
 
     # Phase 2: minimize sum of x (all costs = 1)
     for j in range(n_vars + 1):
